@@ -87,8 +87,8 @@ def a64Long (pc target : Nat) (impl : List Nat) : Option String :=
   | Res.panic w => some ("translated=panic:" ++ w)
 
 /-- 32-bit ARM entry patch: destination address and bytes written -/
-def a32Patch (src target : Nat) (addr : Nat) (impl : List Nat) : Option String :=
-  match run (GenA32.replace_function_with_other_function Mode.release src target) (os0 [Val.bs (List.replicate 12 0), Val.n 4096, Val.n 0]) with
+def a32Patch (src target : Nat) (addr : Nat) (impl : List Nat) (saved : List Nat := List.replicate 12 0) : Option String :=
+  match run (GenA32.replace_function_with_other_function Mode.release src target) (os0 [Val.bs saved, Val.n 4096, Val.n 0]) with
   | (Res.ok _, os) => match copies os.log with
     | [(d, bs)] => if bs.take impl.length == impl && bs.length ≤ 12 && d == addr then none else some ("translated=" ++ hex d ++ ":" ++ hexBytes bs)
     | _ => some "translated=no-single-copy"
